@@ -353,6 +353,8 @@ def run(ck):
         # ---- (4) framing variants (cleartext)
         if not enc and i % 2 == 0:
             framing(ck, rng, m, data)
+        if enc and i % 2 == 0:
+            framing_protected(ck, rng, m, crypto, iid, sk_a, sk_e)
     # ---- (3b) fixed point on accepted mutants
     for i in range(1500 if not thorough else 250000):
         if not ck.mine(i):
@@ -479,6 +481,36 @@ def edited(ck, rng, m, objs, crypto, iv, i, case):
     if second != want:
         what = 'still-the-octets-of-the-first-serialisation' if second == first else 'differs-from-the-reference-encoding-of-the-edited-content'
         ck.violation(f'serialisation-after-an-edit:{what}', {'edit': kind, 'got': second[:64], 'want': want[:64], **case}, case)
+
+
+def framing_protected(ck, rng, m, crypto, iid, sk_a, sk_e):
+    """The same rule INSIDE an encrypted payload: an unknown payload without the critical bit is skipped leaving the others intact, one with it is rejected AS SUCH
+    (the answer the peer gets names the payload type: UNSUPPORTED_CRITICAL_PAYLOAD, not INVALID_SYNTAX)."""
+    base = [p for p in m['payloads']]
+    utype = rng.choice([37, 38, 47, 48, 49, 100, 200, 255])
+    hdr = {k: m[k] for k in ('spi_i', 'spi_r', 'major', 'minor', 'exch', 'flags', 'mid')}
+    for crit in (False, True):
+        pls = list(base)
+        pos = rng.randrange(len(pls) + 1)
+        pls.insert(pos, {'type': utype, 'critical': crit, 'body': gen.rb(rng, rng.randrange(0, 24))})
+        d = ikecrypto.sk_seal(hdr, pls, iid, sk_a, sk_e, gen.rb(rng, 16))
+        case = {'data': d, 'unknown_type': utype, 'critical': crit, 'position': pos, 'inside': 'SK', 'keys': (iid, sk_a, sk_e)}
+        try:
+            parsed = M.Message.parse(d, header_only=False, crypto=crypto)
+            outcome = 'accepted'
+        except M.UnsupportedCriticalPayload:
+            outcome = 'critical'
+        except Exception as ex:
+            outcome = type(ex).__name__
+        ck.count(f'framing.unknown_inside_sk.{"critical" if crit else "noncritical"}')
+        ck.nontrivial(('unknown-inside-sk', utype, crit, outcome))
+        if crit and outcome != 'critical':
+            ck.violation(f'unknown-critical-payload-not-rejected-as-such:{outcome}:inside-the-encrypted-payload', case, case)
+        if not crit:
+            if outcome != 'accepted':
+                ck.violation(f'unknown-non-critical-payload-not-skipped:{outcome}:inside-the-encrypted-payload', case, case)
+            elif [abstract_of(o) for o in parsed.encrypted_payloads] != [strip(p) for p in base]:
+                ck.violation('skipping-an-unknown-payload-changed-the-others:inside-the-encrypted-payload', case, case)
 
 
 def framing(ck, rng, m, data):
@@ -614,6 +646,7 @@ def verdict(ck):
     ck.floor('messages serialised again after an edit', sum(v for k, v in c.items() if k.startswith('edited.')), 800)
     ck.floor('protected messages with more than minimal padding parsed', c['decode.extra_padding'], 500)
     ck.floor('encrypted messages', c['encode.sk_compared'], 500)
+    ck.floor('unknown critical payloads placed inside an encrypted payload', c['framing.unknown_inside_sk.critical'], 300)
     ck.floor('multi-proposal SAs with SPIs', c['payloads.multi_proposal_sa_with_spi'], 100)
     ck.floor('IPv6 selectors', c['payloads.ipv6_selectors'], 100)
     ck.floor('dumps read back from the DEBUG log', c['dump.logged'], 1500)
